@@ -2,6 +2,7 @@ package main
 
 import (
 	"fmt"
+	"go/ast"
 	"go/token"
 	"go/types"
 	"sort"
@@ -114,120 +115,121 @@ func checkC13Wiring(w *World, r *Report, d *dispatchInfo) {
 	}
 }
 
-// loopShape describes a composition loop `for i := len(mws)-1; i >= 0; i-- { if cond { acc = mws[i].m(acc) } }`.
+// checkC13Loops works on the syntax (go/cfg facts), so that the loop may be written with an index running down or as a
+// range over slices.Backward, and the entry may be mws[i] or the range variable.
 func checkC13Loops(w *World, r *Report) {
 	ru := r.Rule("C13.4", "composition loops: applyMiddleware and applyRouteMiddleware walk the list from the last entry to the first, wrap the accumulator only when the entry's scope includes the wanted scope, and the route-only accumulator only for non-global entries; applyRouteMiddleware returns (route-only, all)", 3)
-	mwT := w.FoxType("middleware")
-	scopeF, gF, mF := w.Field(mwT, "scope"), w.Field(mwT, "g"), w.Field(mwT, "m")
-	rh, _ := w.Fox.Types.Scope().Lookup("RouteHandler").(*types.Const)
-	rhv, _ := constantInt64(rh)
 	for _, name := range []string{"applyMiddleware", "applyRouteMiddleware"} {
-		fn := w.Func(name)
-		r.Analysed(FuncName(fn))
-		// index phi
-		var idx *ssa.Phi
-		eachInstr(fn, func(in ssa.Instruction) {
-			if p, ok := in.(*ssa.Phi); ok && p.Comment == "i" {
-				idx = p
-			}
-		})
-		okDir, why := false, "no index variable found"
-		if idx != nil {
-			initOK, stepOK := false, false
-			for _, e := range idx.Edges {
-				if bo, ok := e.(*ssa.BinOp); ok && bo.Op == token.SUB {
-					if one, ok := constInt(bo.Y); ok && one == 1 {
-						if bo.X == ssa.Value(idx) {
-							stepOK = true
-						} else if c, ok := bo.X.(*ssa.Call); ok {
-							if b, ok := c.Call.Value.(*ssa.Builtin); ok && b.Name() == "len" {
-								initOK = true
-							}
-						}
-					}
+		af := w.astFuncOf(modulePath, name)
+		r.Analysed(name)
+		// the list parameter: the []middleware one; the wanted scope: the scope parameter or the constant RouteHandler
+		list, wanted := "", "RouteHandler"
+		for _, f := range af.decl.Type.Params.List {
+			t := exprStr(f.Type)
+			for _, nm := range f.Names {
+				if t == "[]middleware" {
+					list = nm.Name
+				}
+				if t == "HandlerScope" {
+					wanted = nm.Name
 				}
 			}
-			condOK := false
-			if refs := idx.Referrers(); refs != nil {
-				for _, ref := range *refs {
-					if bo, ok := ref.(*ssa.BinOp); ok && bo.X == ssa.Value(idx) {
-						if z, ok := constInt(bo.Y); ok && ((bo.Op == token.GEQ && z == 0) || (bo.Op == token.GTR && z == -1)) {
-							condOK = true
-						}
-					}
-				}
-			}
-			okDir = initOK && stepOK && condOK
-			why = fmt.Sprintf("init=len-1:%v step=-1:%v cond=i>=0:%v", initOK, stepOK, condOK)
 		}
-		ru.Check(name+" direction", w.Pos(fn.Pos()), "index runs from len(mws)-1 down to 0 (first registered ends up outermost)", okDir, why)
-		// wrap calls
-		nwrap := 0
-		eachInstr(fn, func(in ssa.Instruction) {
-			c, ok := in.(*ssa.Call)
-			if !ok || c.Call.StaticCallee() != nil || c.Call.IsInvoke() {
-				return
-			}
-			if _, f, ok := loadedField(c.Call.Value); !ok || f != mF {
-				return
-			}
-			nwrap++
-			acc, isPhi := c.Call.Args[0].(*ssa.Phi)
-			accName := "?"
-			if isPhi {
-				accName = acc.Comment
-			}
-			scopeOK, gFalse, gSeen := false, false, false
-			for _, ft := range factsAtBlock(c.Block()) {
-				if bo, ok := ft.Cond.(*ssa.BinOp); ok && ((bo.Op == token.NEQ && ft.Val) || (bo.Op == token.EQL && !ft.Val)) {
-					if and, ok := bo.X.(*ssa.BinOp); ok && and.Op == token.AND {
-						if z, ok := constInt(bo.Y); ok && z == 0 {
-							_, lf, isLoad := loadedField(and.X)
-							other := and.Y
-							if !isLoad {
-								_, lf, isLoad = loadedField(and.Y)
-								other = and.X
-							}
-							if isLoad && lf == scopeF {
-								if name == "applyMiddleware" {
-									_, isP := other.(*ssa.Parameter)
-									scopeOK = isP
-								} else if k, ok := constInt(other); ok && k == rhv {
-									scopeOK = true
-								}
-							}
-						}
+		// the loop and the expression that denotes the current entry
+		entry, dirWhy := "", "no loop over the middleware list found"
+		okDir := false
+		ast.Inspect(af.decl.Body, func(n ast.Node) bool {
+			switch x := n.(type) {
+			case *ast.ForStmt:
+				init, ok1 := x.Init.(*ast.AssignStmt)
+				post, ok2 := x.Post.(*ast.IncDecStmt)
+				if !ok1 || !ok2 || len(init.Lhs) != 1 {
+					return true
+				}
+				iv := exprStr(init.Lhs[0])
+				entry = list + "[" + iv + "]"
+				startsLast := exprStr(init.Rhs[0]) == "len("+list+")-1"
+				down := post.Tok == token.DEC && exprStr(post.X) == iv
+				c := exprStr(x.Cond)
+				toZero := c == iv+">=0" || c == iv+">-1" || c == "0<="+iv
+				okDir = startsLast && down && toZero
+				dirWhy = fmt.Sprintf("init=len-1:%v step=-1:%v cond=i>=0:%v", startsLast, down, toZero)
+			case *ast.RangeStmt:
+				if call, ok := x.X.(*ast.CallExpr); ok && len(call.Args) == 1 && exprStr(call.Args[0]) == list {
+					if exprStr(call.Fun) == "slices.Backward" && x.Value != nil {
+						entry, okDir, dirWhy = exprStr(x.Value), true, "range slices.Backward("+list+")"
+					} else {
+						entry, okDir, dirWhy = exprStr(x.Value), false, "range over "+exprStr(call.Fun)+"("+list+")"
+					}
+				} else if exprStr(x.X) == list {
+					okDir, dirWhy = false, "forward range over "+list
+					if x.Value != nil {
+						entry = exprStr(x.Value)
+					} else if x.Key != nil {
+						entry = list + "[" + exprStr(x.Key) + "]"
 					}
 				}
-				if _, lf, ok := loadedField(ft.Cond); ok && lf == gF {
-					gSeen = true
-					gFalse = !ft.Val
+			}
+			return true
+		})
+		ru.Check(name+" direction", w.Pos(af.decl.Pos()), "the list is walked from the last entry to the first (first registered ends up outermost)", okDir, dirWhy)
+		if entry == "" {
+			ru.Fail(name+" wraps", w.Pos(af.decl.Pos()), "the loop wraps the accumulator with the entry's middleware function", "no loop found")
+			continue
+		}
+		// wraps: A = entry.m(A)
+		routeOnly := map[string]bool{}
+		nwrap := 0
+		for _, b := range af.g.Blocks {
+			if !b.Live {
+				continue
+			}
+			for _, nd := range b.Nodes {
+				as, ok := nd.(*ast.AssignStmt)
+				if !ok || len(as.Lhs) != 1 || len(as.Rhs) != 1 {
+					continue
+				}
+				call, ok := as.Rhs[0].(*ast.CallExpr)
+				if !ok || exprStr(call.Fun) != entry+".m" || len(call.Args) != 1 || exprStr(call.Args[0]) != exprStr(as.Lhs[0]) {
+					continue
+				}
+				nwrap++
+				acc := exprStr(as.Lhs[0])
+				scopeOK, gSeen, gFalse := false, false, false
+				for _, f := range af.factsAt(b) {
+					e := exprStr(f.e)
+					for _, form := range []string{entry + ".scope&" + wanted, wanted + "&" + entry + ".scope"} {
+						if (e == form+"!=0" && f.val) || (e == form+"==0" && !f.val) {
+							scopeOK = true
+						}
+					}
+					if e == entry+".g" {
+						gSeen, gFalse = true, !f.val
+					}
+					if e == "!"+entry+".g" {
+						gSeen, gFalse = true, f.val
+					}
+				}
+				if gSeen && gFalse {
+					routeOnly[acc] = true
+					ru.Check(name+" wraps "+acc, w.Pos(as.Pos()), "route-only chain wraps entries in route scope that are not global", scopeOK, fmt.Sprintf("scopeFilter=%v nonGlobalOnly=true", scopeOK))
+				} else {
+					ru.Check(name+" wraps "+acc, w.Pos(as.Pos()), "wraps every entry whose scope includes the wanted scope, global or not", scopeOK && !gSeen, fmt.Sprintf("scopeFilter=%v guardedByGlobalFlag=%v", scopeOK, gSeen))
 				}
 			}
-			switch {
-			case name == "applyRouteMiddleware" && accName == "rte":
-				ru.Check(name+" wraps "+accName, w.Pos(c.Pos()), "route-only chain wraps entries in route scope that are not global", scopeOK && gSeen && gFalse, fmt.Sprintf("scopeFilter=%v nonGlobalOnly=%v", scopeOK, gSeen && gFalse))
-			default:
-				ru.Check(name+" wraps "+accName, w.Pos(c.Pos()), "wraps every entry whose scope includes the wanted scope, global or not", scopeOK && !gSeen, fmt.Sprintf("scopeFilter=%v guardedByGlobalFlag=%v", scopeOK, gSeen))
-			}
-		})
+		}
 		if nwrap == 0 {
-			ru.Fail(name+" wraps", w.Pos(fn.Pos()), "the loop wraps the accumulator with mws[i].m", "no wrap call found")
+			ru.Fail(name+" wraps", w.Pos(af.decl.Pos()), "the loop wraps the accumulator with the entry's middleware function", "no wrap "+entry+".m(acc) found")
 		}
 		if name == "applyRouteMiddleware" {
-			eachInstr(fn, func(in ssa.Instruction) {
-				ret, ok := in.(*ssa.Return)
-				if !ok {
-					return
+			ast.Inspect(af.decl.Body, func(n ast.Node) bool {
+				ret, ok := n.(*ast.ReturnStmt)
+				if !ok || len(ret.Results) != 2 {
+					return true
 				}
-				n0, n1 := "?", "?"
-				if p, ok := ret.Results[0].(*ssa.Phi); ok {
-					n0 = p.Comment
-				}
-				if p, ok := ret.Results[1].(*ssa.Phi); ok {
-					n1 = p.Comment
-				}
-				ru.Check(name+" result order", w.InstrPos(ret), "returns (route-only chain, all chain)", n0 == "rte" && n1 == "all", n0+", "+n1)
+				n0, n1 := exprStr(ret.Results[0]), exprStr(ret.Results[1])
+				ru.Check(name+" result order", w.Pos(ret.Pos()), "returns (route-only chain, all chain)", routeOnly[n0] && !routeOnly[n1] && len(routeOnly) == 1, n0+", "+n1+fmt.Sprintf(" (route-only accumulators: %v)", routeOnly))
+				return true
 			})
 		}
 	}
@@ -263,6 +265,12 @@ func collectMwEntries(w *World) []mwEntry {
 			refs := a.Referrers()
 			if refs == nil {
 				return
+			}
+			// a cell that receives a whole middleware value (a spilled parameter or range variable) is a copy, not a literal
+			for _, ref := range *refs {
+				if st, ok := ref.(*ssa.Store); ok && st.Addr == ssa.Value(a) {
+					return
+				}
 			}
 			for _, ref := range *refs {
 				switch x := ref.(type) {
